@@ -399,6 +399,23 @@ def liveness_rules(R, pfx="C08", only=None):
         from rules import BlockSink as _BSink
         R.gate(pfx + ".admit.single", ak0, _BSink(lambda b: sorted(set(_vac.blocks(b)) | set(_ins(b))), "insertion into on_going_fetches"), [[one]],
                descr="add_keys starts a fetch directly (without the range filter) only for a single new key")
+        # … and that "single key" is a statement about the *advertisement*: the list as it arrived has one entry (a freshly stored record
+        # pushed by its holder).  A periodic multi-record list of which all entries but one are already held, queued or too far reduces to
+        # one new key as well — that key is taken from a periodic advertisement and must pass the responsible-distance filter.
+        def _adv_len(b):
+            par = Taint(b).closure(set(PL(b, 2)))        # (self, holder, incoming_keys, locally_stored_keys)
+            tref = Taint(b)
+            out = set()
+            for blk in b.blocks:
+                t = blk["term"]
+                if t["k"] == "call" and not blk["cleanup"] and (t["ncallee"] or "").endswith("Vec::len") and t["args"]:
+                    a0 = op_local(t["args"][0])
+                    if a0 in par or (tref.ref_of.get(a0, set()) & par):
+                        out.add(t["d"][0])
+            return Taint(b).closure(out)
+        adv_one = _ConstCmp(F, _adv_len, lambda v: v == 1, ("Eq",), "incoming_keys.len() == 1 (the advertisement itself has one entry)")
+        R.gate(pfx + ".admit.single.advertised", ak0, _BSink(lambda b: sorted(set(_vac.blocks(b)) | set(_ins(b))), "insertion into on_going_fetches"), [[adv_one]],
+               descr="the immediate fetch that skips the range filter is taken only for an advertisement of exactly one key")
     # (c2) the report of failed holders is delivered: the task that send_event spawns reaches `event_sender.send(event)` on every
     #      path (no "channel is full → drop" exit), and the fetcher does not use try_send
     for c in [c for c in F.item(RFP + "send_event") if c.kind == "closure" and c.coroutine][:1]:
